@@ -351,6 +351,8 @@ type Exec struct {
 	lines []string
 	Panic string
 	stats map[string]int
+	// cookies that were replaced in their slot or deleted (create events of class "ended" carry the latest one)
+	retired []string
 }
 
 func serverConfig(c Cfg, path string) *server.LockServerConfig {
@@ -597,6 +599,53 @@ func (x *Exec) cookieFor(ev Ev) *string {
 	}
 }
 
+// createCookie: the cookie a POST /session carries, and what it is at that moment: own-live own-ended other-live other-ended
+// retired-live (a cookie that was replaced in its slot while its session lives on; mode c20) retired-ended garbage
+// (live = in the gateway's session table, when that is visible).
+func (x *Exec) createCookie(ev Ev, h http.Handler) (*string, string) {
+	var c string
+	rel := ev.Ck
+	switch ev.Ck {
+	case "own":
+		if sl := x.slot(ev.S); sl.made {
+			c = sl.cookie
+		}
+	case "other":
+		if sl := x.slot(ev.Cs); sl.made && ev.Cs != ev.S {
+			c = sl.cookie
+		}
+	case "ended":
+		if n := len(x.retired); n > 0 {
+			c = x.retired[n-1]
+		} else {
+			c, rel = "feedfacefeedfacefeedfacefeedface", "garbage"
+		}
+	case "garbage":
+		c = "feedfacefeedfacefeedfacefeedface"
+	default:
+		return nil, ""
+	}
+	if c == "" {
+		return nil, ""
+	}
+	if rel == "ended" {
+		rel = "retired"
+	}
+	if rel != "garbage" {
+		live := "unknown"
+		if cs, ok := sessionCookies(h); ok {
+			live = "ended"
+			for _, k := range cs {
+				if k == c {
+					live = "live"
+				}
+			}
+		}
+		rel += "-" + live
+	}
+	return &c, rel
+}
+
 func ckTok(c *string) string {
 	if c == nil {
 		return "~"
@@ -698,7 +747,8 @@ func (x *Exec) Step(i int, ev Ev) {
 	switch ev.Op {
 	case "create":
 		sl := x.slot(ev.S)
-		if both && sl.connG {
+		repost := both && sl.connG && ev.Ck == "own" && sl.made
+		if both && sl.connG && !repost {
 			return // the slot is in use on the gRPC side: a connection is not re-opened
 		}
 		if x.mode == "mixed" && (sl.connG || (sl.tr == "rest" && sl.made)) {
@@ -718,7 +768,10 @@ func (x *Exec) Step(i int, ev Ev) {
 		}
 		sl.tr = "rest"
 		nTagged := len(x.R.wrap.tagged)
-		ex := serveHTTP(h, "POST", "/session", "", nil)
+		// the cookie the POST carries (a cookie-jar client sends what it has); the answer must be a fresh session all the same
+		carried, class := x.createCookie(ev, h)
+		old := *sl
+		ex := serveHTTP(h, "POST", "/session", "", carried)
 		if x.hang(ex) {
 			return
 		}
@@ -726,12 +779,48 @@ func (x *Exec) Step(i int, ev Ev) {
 		if len(x.R.wrap.tagged) > nTagged {
 			sid = x.R.wrap.lastTagged()
 		}
+		if sl.made && sl.cookie != "" && sl.cookie != ex.cookie {
+			x.retired = append(x.retired, sl.cookie)
+		}
 		sl.cookie, sl.sidR, sl.made = ex.cookie, sid, true
 		x.emit("E create %s %s", hx(ex.cookie), hx(sid))
 		x.emit("O st %d", ex.status)
+		if carried != nil {
+			x.emit("N create-carries class=%s cookie=%s returned_is_carried=%s new_server_session=%s", class, hx(*carried), b01(ex.cookie == *carried), b01(sid != ""))
+			x.stats["create_ck_"+class]++
+		} else {
+			x.stats["create_ck_none"]++
+		}
 		x.note(ex)
 		x.emitEnds()
 		x.stats["op_create"]++
+		if repost {
+			// the client goes on with what it was given and closes its old session / connection
+			c, ctx, gs, cl, err := x.G.front.connect()
+			if err != nil {
+				x.emit("G conn -")
+				x.emit("P rpcerror %s", hx(err.Error()))
+			} else {
+				sl.ctxG, sl.callG, sl.closeG, sl.sidG, sl.connG = ctx, c, cl, gs, true
+				x.emit("G conn %s", hx(gs))
+			}
+			oc := old.cookie
+			ex2 := serveHTTP(h, "DELETE", "/session", "", &oc)
+			if x.hang(ex2) {
+				return
+			}
+			x.emit("E delete %s", hx(oc))
+			x.emit("O st %d", ex2.status)
+			x.note(ex2)
+			x.emitEnds()
+			x.stats["op_delete"]++
+			x.stats[fmt.Sprintf("delete_status_%d", ex2.status)]++
+			if old.connG && old.closeG != nil {
+				old.closeG()
+				x.emit("G disc %s", hx(old.sidG))
+			}
+			return
+		}
 		if both {
 			c, ctx, gs, cl, err := x.G.front.connect()
 			if err != nil {
@@ -764,6 +853,9 @@ func (x *Exec) Step(i int, ev Ev) {
 		x.stats["op_delete"]++
 		x.stats[fmt.Sprintf("delete_status_%d", ex.status)]++
 		sl := x.slot(ev.S)
+		if ex.status == 200 && ck != nil && *ck != "" {
+			x.retired = append(x.retired, *ck)
+		}
 		if x.mode == "mixed" && ex.status == 200 {
 			sl.made = false
 		}
